@@ -75,6 +75,7 @@ def run_impl(case):
         if i not in elems:
             ci, attrs = case["elems"][i]
             e = classes[ci](data=list(attrs))
+            e.tag = attrs[0]  # a plain instance attribute (not a property of the class) with the value of a0
             elems[i] = e
             ident[id(e)] = i
         return elems[i]
@@ -95,6 +96,9 @@ def run_impl(case):
             c.remove(el(op[1]))
     t = classes[case["type"]] if case["type"] < len(classes) else str
     kwargs = {f"a{k}": v for k, v in case["filter"]}
+    if case.get("plain_attr") and "a0" in kwargs:
+        # the same filter, naming the plain attribute instead of the property: any attribute may be filtered on
+        kwargs = {("tag" if k == "a0" else k): v for k, v in kwargs.items()}
     getter = {"register": "get_registers_of_type", "block": "get_blocks_of_type", "section": "get_sections_of_type"}[case["family"]]
     remover = {"register": "remove_registers_of_type", "block": "remove_blocks_of_type", "section": "remove_sections_of_type"}[case["family"]]
     out = {}
@@ -282,7 +286,7 @@ def random_case(rng: random.Random, family):
         else:
             v = rng.randrange(nvals + 1)
         flt.append([k, v])
-    return {"family": family, "parents": parents, "elems": elems, "ops": h["ops"], "type": t, "filter": flt}
+    return {"family": family, "parents": parents, "elems": elems, "ops": h["ops"], "type": t, "filter": flt, "plain_attr": rng.random() < 0.3}
 
 
 def corpus_cases():
